@@ -26,7 +26,7 @@ type profile struct {
 
 var baseWeights = map[string]int{
 	"fund": 14, "swap": 14, "swap-replay": 8, "swap-forged": 4, "swap-badout": 4, "melt": 8, "melt-replay": 4,
-	"melt-internal": 2, "poll": 8, "check": 6, "restore": 3, "restart": 2, "rotate": 2, "balance": 2, "info": 1,
+	"melt-internal": 2, "poll": 8, "check": 6, "restore": 3, "restart": 2, "rotate": 2, "balance": 2, "info": 1, "reconfigure": 1,
 	"watcher": 2, "mint-again": 3, "mint-early": 2, "mint-bad": 3, "quote-bad": 2,
 }
 
@@ -249,7 +249,7 @@ func (h *Hist) actSwapBadOut() {
 		sum += s.amount
 	}
 	outs := h.honestSwapOutputs(ins)
-	switch h.rng.Intn(8) {
+	switch h.rng.Intn(10) {
 	case 0: // outputs exceed inputs
 		outs = h.freshOutputs(cashu.AmountSplit(sum + 1))
 	case 1: // overflowing amounts
@@ -286,8 +286,49 @@ func (h *Hist) actSwapBadOut() {
 		}
 	case 7: // no outputs at all
 		outs = nil
+	case 8: // valid denominations whose sum is just below 2^64: adding the input fees to it wraps around
+		k := uint64(1)
+		if f := h.feesFor(ins); f > 0 {
+			k = []uint64{1, f, f + 1}[h.rng.Intn(3)]
+		}
+		outs = h.freshOutputs(belowTwo64(k))
+	case 9: // an output spelled a second time in upper-case hex: another string for the same point (the inputs pay for both)
+		if len(outs) > 0 {
+			small := outs[0]
+			for _, o := range outs {
+				if o.amount < small.amount {
+					small = o
+				}
+			}
+			if fees := h.feesFor(ins); sum >= fees && 2*small.amount <= sum-fees {
+				t := small
+				t.b = h.twinB(small.b)
+				outs = []outSpec{small, t}
+			}
+		}
 	}
 	h.OpSwap(mode{}, ins, outs)
+}
+
+// belowTwo64 returns keyset denominations (powers of two up to 2^59) that sum to 2^64 - k, for 1 <= k <= 2^59.
+func belowTwo64(k uint64) []uint64 {
+	var l []uint64
+	for i := 0; i < 31; i++ {
+		l = append(l, 1<<59)
+	}
+	return append(l, cashu.AmountSplit((1<<59)-k)...)
+}
+
+// overTwo64 returns keyset denominations that sum to 2^64 + r.
+func overTwo64(r uint64) []uint64 {
+	var l []uint64
+	for i := 0; i < 32; i++ {
+		l = append(l, 1<<59)
+	}
+	if r > 0 {
+		l = append(l, cashu.AmountSplit(r)...)
+	}
+	return l
 }
 
 // actMelt: quote for an external invoice and melt with scripted Lightning answers
@@ -304,8 +345,14 @@ func (h *Hist) actMelt(script bool) *hMeltQ {
 	ins0 := h.pickSome(sp, 3)
 	var ins []inSpec
 	var sum uint64
+	withWitness := h.rng.Intn(3) == 0
 	for _, s := range ins0 {
-		ins = append(ins, h.honest(s))
+		i := h.honest(s)
+		if withWitness {
+			// the witness a proof is melted with is what state checks report while it is locked and after it is spent
+			i.wit = h.fresh()
+		}
+		ins = append(ins, i)
 		sum += s.amount
 	}
 	fees := h.feesFor(ins)
@@ -336,6 +383,11 @@ func (h *Hist) actMelt(script bool) *hMeltQ {
 	}
 	if script {
 		h.scriptFor(q)
+	}
+	if f := h.between; f != nil {
+		// the operator reconfigures the mint between the quote and the melt: the quote stays what it was
+		h.between = nil
+		f()
 	}
 	h.OpMelt(mode{}, q, ins, false)
 	return q
@@ -570,7 +622,7 @@ func (h *Hist) actMintBad() {
 	if withKey {
 		sk = 1
 	}
-	switch h.rng.Intn(9) {
+	switch h.rng.Intn(10) {
 	case 0:
 		outs = h.freshOutputs(cashu.AmountSplit(amount + 1))
 	case 1:
@@ -606,6 +658,8 @@ func (h *Hist) actMintBad() {
 				break
 			}
 		}
+	case 9: // valid denominations whose true sum is 2^64 + r: the uint64 sum wraps to r <= the quoted amount
+		outs = h.freshOutputs(overTwo64([]uint64{0, 1, amount}[h.rng.Intn(3)]))
 	}
 	h.nontrivial = true
 	h.OpMint(mode{}, q, outs, sk, false)
@@ -714,8 +768,39 @@ func (h *Hist) act(name string, fees []uint) {
 		h.actRestore()
 	case "restart":
 		h.OpRestart(fees[h.rng.Intn(len(fees))], h.rng.Intn(3) == 0)
+	case "reconfigure":
+		c := h.cfg
+		switch h.rng.Intn(5) {
+		case 4: // a melt whose quote was given under the old configuration
+			c.mpp = !c.mpp
+			if h.rng.Intn(2) == 0 {
+				c.maxMelt = []uint64{0, 5, 20}[h.rng.Intn(3)]
+			}
+			h.between = func() { h.Reconfigure(c) }
+			h.actMelt(h.rng.Intn(2) == 0)
+			if h.between == nil {
+				return
+			}
+			h.between = nil
+		case 0:
+			c.mpp = !c.mpp
+		case 1:
+			c.maxMint, c.maxMelt = []uint64{0, 8, 21, 100}[h.rng.Intn(4)], []uint64{0, 5, 20, 64}[h.rng.Intn(4)]
+		case 2:
+			c.maxBalance = []uint64{0, 50, 128, 1000}[h.rng.Intn(4)]
+		case 3:
+			c.mpp, c.maxMint, c.maxMelt, c.maxBalance = false, 0, 0, 0
+		}
+		h.Reconfigure(c)
 	case "rotate":
-		h.OpRotate(mode{}, fees[h.rng.Intn(len(fees))])
+		switch h.rng.Intn(6) {
+		case 0: // through the admin RPC, with a well-formed fee
+			h.OpRotateAdmin(fmt.Sprint(fees[h.rng.Intn(len(fees))]))
+		case 1: // through the admin RPC, with text that is no fee or does not fit the keysets table
+			h.OpRotateAdmin([]string{"-1", "abc", "", "1.5", "1e3", "9223372036854775807", "9223372036854775808", "18446744073709551615", "18446744073709551616"}[h.rng.Intn(9)])
+		default:
+			h.OpRotate(mode{}, fees[h.rng.Intn(len(fees))])
+		}
 	case "balance":
 		h.OpBalance(mode{})
 	case "info":
@@ -777,7 +862,7 @@ func init() {
 		rule: "random mint/swap/melt/check histories with re-presentations of consumed and locked secrets (same request, later request, changed witness/DLEQ/amount/keyset, other melt quote, while PENDING, after restart); non-trivial = at least one re-presentation attempted; distinct by abstract history"}))
 	register("c02-hist", "C02", histStream(profile{prop: "C02", histQ: 150, histT: 2500, minOps: 8, maxOps: 30, proj: 1,
 		fees: []uint{0, 1, 100, 999, 1000, 2500}, mppProb: 40,
-		w: weightsWith(map[string]int{"swap": 18, "swap-badout": 10, "swap-forged": 8, "melt": 16, "melt-internal": 6, "rotate": 4, "mint-bad": 5, "swap-replay": 3, "check": 2, "restore": 1}),
+		w: weightsWith(map[string]int{"swap": 18, "swap-badout": 10, "swap-forged": 8, "melt": 16, "melt-internal": 6, "rotate": 4, "mint-bad": 5, "swap-replay": 3, "check": 2, "restore": 1, "reconfigure": 4}),
 		rule: "random histories of honest and adversarial requests (outputs > inputs, overflowing amounts, amounts that are not keys, mixed keysets with input_fee_ppk in {0,1,100,999,1000,2500}, internal mint<->melt settlement, MPP, sub-sat invoices) against a backend that is charged the full fee limit; non-trivial = an adversarial amount/fee request or an internal settlement occurred"}))
 	register("c03-hist", "C03", histStream(profile{prop: "C03", histQ: 150, histT: 2500, minOps: 8, maxOps: 26, proj: 1,
 		fees: []uint{0, 100}, mppProb: 0,
@@ -801,6 +886,6 @@ func init() {
 		rule: "histories of mint/swap/melt incl. failed and pending melts, rotations, restarts, with state checks and restore queries mixing known, unknown and repeated entries in random order; non-trivial = a query containing a spent or pending or signed entry"}))
 	register("c16-hist", "C16", histStream(profile{prop: "C16", histQ: 150, histT: 2500, minOps: 8, maxOps: 30, proj: 1,
 		fees: []uint{0, 100}, mppProb: 10, limits: true,
-		w: weightsWith(map[string]int{"balance": 16, "info": 12, "quote-bad": 10, "fund": 20, "melt": 10, "swap": 10, "overshoot": 8, "info-cycle": 10}),
+		w: weightsWith(map[string]int{"balance": 16, "info": 12, "quote-bad": 10, "fund": 20, "melt": 10, "swap": 10, "overshoot": 8, "info-cycle": 10, "reconfigure": 6}),
 		rule: "histories under limit configurations (unset / small / at the boundary) with balance and info queries and quote requests near 2^63 and 2^64; non-trivial = a limit was configured"}))
 }
